@@ -6,6 +6,9 @@ Mirrors the *type dispatch* of
 * `node/binary_add.go … binary_dot.go` (one function per operator: which operand
   kinds take which branch, which conversions are applied, which branch raises a
   catchable error, which would hit an unchecked Go type assertion → `crash`),
+* `data/value_compare.go` `LooseCompare` — the one comparison behind `== != < <= > >= <=>`
+  (`looseCompare`; the seven nodes only test its result: `viaCompare`, `cmp`, and the
+  regenerated `CmpSite` table says which test each node applies),
 * `node/expression.go` (`-`, `!`, `~`), `std/convert_{bool,int,float}.go` (`(bool)`, `(int)`, `(float)`),
 * every place that decides whether a value is "true": `AsBool` of each value type
   (`data/value_*.go`), the inline switch of `node/ternary.go`, the `*BoolValue` shortcut of
